@@ -64,8 +64,13 @@ class ParameterType(enum.Enum):
                                                             (str, bool))):
       self._raise_type_error(value)
 
-    if self == self.INTEGER and int(value) != value:
-      self._raise_type_error(value)
+    if self == self.INTEGER:
+      try:
+        is_integral = int(value) == value
+      except OverflowError:  # +-inf
+        is_integral = False
+      if not is_integral:
+        self._raise_type_error(value)
 
 
 # TODO: Trial class should not depend on these.
